@@ -6,7 +6,8 @@
 (*   C18  tracked flows are per tuple and expire when idle                 *)
 (*   C19  tracked flows are revalidated after a rule reload                *)
 (* for the default single-routine configuration (routine-local conntrack   *)
-(* cache off).                                                             *)
+(* cache off: Routines = {}) and, C18, for reader routines that each own a  *)
+(* routine-local conntrack cache (firewall/cache.go ConntrackCacheTicker).  *)
 (*                                                                         *)
 (* Reference layer : now, rules, est, origs, last (the statements' words:  *)
 (*    which <<flow, direction>> the current rules allow, whether a flow is *)
@@ -14,7 +15,10 @@
 (*    its last packet passed).  RefMayPass is the only thing a verdict of  *)
 (*    the real code is compared with.                                      *)
 (* Machine layer   : conns, tw, ver  (FirewallConntrack.Conns, .TimerWheel,*)
-(*    Firewall.rulesVersion), one action per critical section.             *)
+(*    Firewall.rulesVersion), one action per critical section; cache, cver *)
+(*    (per routine: ConntrackCacheTicker.cache and .cacheV; the tick       *)
+(*    counter is now \div CachePeriod).  A packet found in its routine's   *)
+(*    cache is admitted without a look at conns / Expires (PktCached).     *)
 (*    Two switches select the machine "as written today" or the repaired   *)
 (*    design:  CheckExpiry (inConns looks at Expires) and WrapKeeps (a     *)
 (*    version wrap marks every flow for revalidation instead of dropping   *)
@@ -43,7 +47,11 @@ CONSTANTS Flows,        \* positive integers
           MaxItems,     \* exploration bound on the number of items in the wheel
           IdleMatters,  \* TRUE: the reference includes C18's idle timeout; FALSE: C19 alone (an established flow never expires)
           CheckExpiry,  \* FALSE: inConns as written (never looks at Expires); TRUE: an entry whose Expires has passed is absent
-          WrapKeeps     \* FALSE: reloadFirewall as written (version wrap drops the table); TRUE: wrap keeps the table, marks all stale
+          WrapKeeps,    \* FALSE: reloadFirewall as written (version wrap drops the table); TRUE: wrap keeps the table, marks all stale
+          Routines,     \* the reader routines, each with its own routine-local conntrack cache ({}: the cache is off, Drop gets nil)
+          CachePeriod,  \* firewall.conntrack.routine_cache_timeout in time units (the tick of ConntrackCacheTicker), > 0
+          CacheSlack    \* reference: how long past its timeout a flow may still be honoured because the verdict came from a routine
+                        \* cache (0 = the statement as it stands; configurations whose cache period exceeds a timeout use the period)
 
 Min(a, b) == IF a < b THEN a ELSE b
 Max(a, b) == IF a > b THEN a ELSE b
@@ -55,12 +63,13 @@ VARIABLES now,
           cfg,                           \* the installed configuration (only used with Cfgs; rules = EffOf(cfg) then)
           rules, est, origs, last,       \* reference
           conns, tw, ver,                \* machine
+          cache, cver,                   \* machine: per routine the cached tuples and the tick they were cached under
           res,                           \* verdict of the latest packet: TRUE = passed
           may,                           \* RefMayPass for that packet, evaluated before it
           why,                           \* if not: "untracked" / "idle" / "rules" (which part of the statement forbids it)
           keeps                          \* the latest reload, if it left the rules as they were, cut no flow
 
-vars == <<now, cfg, rules, est, origs, last, conns, tw, ver, res, may, why, keeps>>
+vars == <<now, cfg, rules, est, origs, last, conns, tw, ver, cache, cver, res, may, why, keeps>>
 
 TW == INSTANCE TimerWheel WITH TickD <- WTick, Span <- WSpan, Items <- {}, Timeouts <- {}, Gaps <- {}, CacheMax <- 0,
           StaleAdds <- TRUE, now <- now, adv <- 0, w <- tw, st <- <<>>, addedAt <- <<>>, tmo <- <<>>, fresh <- <<>>,
@@ -69,7 +78,7 @@ TW == INSTANCE TimerWheel WITH TickD <- WTick, Span <- WSpan, Items <- {}, Timeo
 -----------------------------------------------------------------------------
 (* Reference *)
 Allowed(rs, f, inc) == <<f, inc>> \in rs
-Tracked(f) == est[f] /\ (IdleMatters => now - last[f] <= Timeout(f))    \* "has not been idle longer than its protocol's timeout"
+Tracked(f) == est[f] /\ (IdleMatters => now - last[f] <= Timeout(f) + CacheSlack)    \* "has not been idle longer than its protocol's timeout"
 \* the flow's original direction is still allowed.  origs[f] is a set: when a packet that a rule allows passes while
 \* its flow is established, the statement does not say whether it continues the flow or opens it anew
 OrigAllowed(f) == \E d \in origs[f] : Allowed(rules, f, d)
@@ -129,30 +138,61 @@ AddConn(c, t, v, f, inc) ==
 \* Drop(f, inc) after the address checks
 DoPktS(S, f, inc) ==
     LET ic == InConns(S, f)
-    IN IF ic.hit THEN [pass |-> TRUE, c |-> ic.c, t |-> ic.t]
+    IN IF ic.hit THEN [pass |-> TRUE, hit |-> TRUE, c |-> ic.c, t |-> ic.t]
        ELSE IF Allowed(S.r, f, inc)
-            THEN LET a == AddConn(ic.c, ic.t, S.v, f, inc) IN [pass |-> TRUE, c |-> a.c, t |-> a.t]
-            ELSE [pass |-> FALSE, c |-> ic.c, t |-> ic.t]
+            THEN LET a == AddConn(ic.c, ic.t, S.v, f, inc) IN [pass |-> TRUE, hit |-> FALSE, c |-> a.c, t |-> a.t]
+            ELSE [pass |-> FALSE, hit |-> FALSE, c |-> ic.c, t |-> ic.t]
 
 Cur == [c |-> conns, t |-> tw, r |-> rules, v |-> ver]
 DoPkt(f, inc) == DoPktS(Cur, f, inc)
+
+\* The routine-local cache.  ConntrackCacheTicker.tick counts the periods since the node started (time 0);
+\* Get() hands the routine its map, emptied first when the counter has moved since the routine last looked.
+CTick == now \div CachePeriod
+CacheGet(r) == IF cver[r] = CTick THEN cache[r] ELSE {}
 
 -----------------------------------------------------------------------------
 Init == /\ now = 0 /\ rules = InitRules /\ cfg = InitCfg
         /\ est = [f \in Flows |-> FALSE] /\ origs = [f \in Flows |-> {}] /\ last = [f \in Flows |-> 0]
         /\ conns = NoConns /\ tw = TW!WNew /\ ver = 0
+        /\ cache = [r \in Routines |-> {}] /\ cver = [r \in Routines |-> 0]
         /\ res = FALSE /\ may = TRUE /\ why = "ok" /\ keeps = TRUE
 
 Sleep(d) == /\ now' = now + d
-            /\ UNCHANGED <<cfg, rules, est, origs, last, conns, tw, ver, res, may, why, keeps>>
+            /\ UNCHANGED <<cfg, rules, est, origs, last, conns, tw, ver, cache, cver, res, may, why, keeps>>
 
+\* Drop with a nil cache (no routine caches configured)
 Pkt(f, inc) == LET r == DoPkt(f, inc) IN
+               /\ Routines = {}
                /\ conns' = r.c /\ tw' = r.t
                /\ res' = r.pass
                /\ may' = RefMayPass(f, inc)
                /\ why' = RefWhyNot(f, inc)
                /\ RefAfter(f, inc, r.pass)
+               /\ UNCHANGED <<now, cfg, rules, ver, cache, cver, keeps>>
+
+\* Drop on routine q with q's cache, the tuple is not in it: conntrack and the rules decide; a conntrack hit is cached
+PktR(q, f, inc) == LET r == DoPkt(f, inc)  cc == CacheGet(q) IN
+               /\ f \notin cc
+               /\ conns' = r.c /\ tw' = r.t
+               /\ cache' = [cache EXCEPT ![q] = IF r.hit THEN cc \cup {f} ELSE cc]
+               /\ cver' = [cver EXCEPT ![q] = CTick]
+               /\ res' = r.pass
+               /\ may' = RefMayPass(f, inc)
+               /\ why' = RefWhyNot(f, inc)
+               /\ RefAfter(f, inc, r.pass)
                /\ UNCHANGED <<now, cfg, rules, ver, keeps>>
+
+\* packet admitted from the routine cache: inConns returns before it looks at conntrack, Expires or the rules version
+PktCached(q, f, inc) == LET cc == CacheGet(q) IN
+               /\ f \in cc
+               /\ cache' = [cache EXCEPT ![q] = cc]
+               /\ cver' = [cver EXCEPT ![q] = CTick]
+               /\ res' = TRUE
+               /\ may' = RefMayPass(f, inc)
+               /\ why' = RefWhyNot(f, inc)
+               /\ RefAfter(f, inc, TRUE)
+               /\ UNCHANGED <<now, cfg, rules, conns, tw, ver, keeps>>
 
 \* Interface.reloadFirewall with a changed firewall section (an unchanged section is a no-op): installs the rules r
 ReloadTo(r) == /\ Reloads
@@ -167,7 +207,7 @@ ReloadTo(r) == /\ Reloads
                /\ keeps' = (r = rules =>
                             \A f \in Flows, inc \in BOOLEAN :
                                 DoPkt(f, inc).pass => DoPktS([c |-> conns', t |-> tw', r |-> r, v |-> ver'], f, inc).pass)
-               /\ UNCHANGED <<now, est, origs, last, res, may, why>>
+               /\ UNCHANGED <<now, est, origs, last, cache, cver, res, may, why>>
 
 \* a reload named by the rule set it installs
 Reload(r) == ReloadTo(r) /\ UNCHANGED cfg
@@ -181,6 +221,8 @@ ReloadCfg(c) == /\ c # cfg
 
 Next == \/ \E d \in Gaps : Sleep(d)
         \/ \E f \in Flows, inc \in BOOLEAN : Pkt(f, inc)
+        \/ \E q \in Routines, f \in Flows, inc \in BOOLEAN : PktR(q, f, inc)
+        \/ \E q \in Routines, f \in Flows, inc \in BOOLEAN : PktCached(q, f, inc)
         \/ \E r \in RuleSets : Reload(r)
         \/ \E c \in Cfgs : ReloadCfg(c)
 
@@ -196,6 +238,7 @@ Bound == WheelItems <= MaxItems
 TypeOK == /\ DOMAIN conns \subseteq Flows
           /\ ver \in 0..VerMod-1
           /\ \A f \in DOMAIN conns : conns[f].ver \in 0..VerMod-1
+          /\ \A q \in Routines : cache[q] \subseteq Flows /\ cver[q] <= CTick
 
 \* C18 and the first sentence of C19: whatever passed was permitted
 PassPermitted == res => may
@@ -213,7 +256,9 @@ NormD == IF D >= (TW!L + 1) * WTick THEN (TW!L + 1) * WTick + (D % WTick) ELSE D
 RotSlots == [k \in 0..TW!L-1 |-> tw.slots[(tw.cur + k) % TW!L]]
 ConnView == [f \in DOMAIN conns |-> [conns[f] EXCEPT !.expires = Max(@ - now, 0)]]
 RefView(f) == IF Tracked(f) THEN <<TRUE, origs[f], IF IdleMatters THEN now - last[f] ELSE 0>> ELSE <<FALSE>>
-View == <<NormD, RotSlots, tw.exp, ConnView, ver, cfg, rules, [f \in Flows |-> RefView(f)], res, may, why, keeps>>
+\* what a routine's cache holds now, and how far the next tick is
+CacheView == <<[q \in Routines |-> CacheGet(q)], IF Routines = {} THEN 0 ELSE now % CachePeriod>>
+View == <<NormD, RotSlots, tw.exp, ConnView, ver, cfg, rules, [f \in Flows |-> RefView(f)], CacheView, res, may, why, keeps>>
 
 -----------------------------------------------------------------------------
 (* Values used by the configurations (cfg files cannot write functions and sets of tuples) *)
@@ -241,6 +286,7 @@ NoGaps    == {}
 SomeRules2 == {{<<1, FALSE>>, <<2, TRUE>>}, {<<2, TRUE>>}, {<<1, FALSE>>}, {<<1, TRUE>>, <<2, TRUE>>}, {}}
 \* configurations without a meaning of their own (graphs whose reloads name the rule set)
 NoCfgs == {}
+NoRoutines == {}
 EffNone(c) == {}
 \* C19, effective semantics: flow 1 goes to an own address, flow 2 to an address in an unsafe network of the certificate,
 \* otherwise the same tuple.  Rule texts: "i" one inbound rule without local_cidr, "io" that and an outbound rule without
